@@ -29,6 +29,10 @@ RULE = ("case = history of 1..5 sessions (flat and nested trees up to depth 3 "
         "candidate, every older version, plus bit flips and truncations at "
         "first/last/seeded offsets (quick) or at EVERY byte offset and every "
         "length (thorough). A fault counts only if the bytes really differ. "
+        "In 30% of the cases two scheduler tasks verify at the same time "
+        "(line-level pre-emption in utils.py / dataset_writing.py): the "
+        "untouched dataset through two handles (both pass), then one shard "
+        "with a flipped byte through ONE handle (both must raise). "
         "Non-trivial = at least one fault evaluated; distinct = event digest.")
 ASSUMPTIONS = C.ASSUMPTIONS + [
     "at least one checksum algorithm is configured (the statement's premise)",
